@@ -55,6 +55,7 @@ pub struct Obs {
     pub sets: BTreeMap<String, HashSet<u64>>,
     pub notes: Vec<String>,
     pub inconclusive: Vec<String>,
+    pub env_skips: Vec<String>,
 }
 
 impl Obs {
@@ -118,6 +119,18 @@ impl Obs {
         self.inconclusive.push(why.into());
     }
 
+    /// A case that could not be run because of the harness's own environment (a loopback
+    /// connection that could not be established): it says nothing about the code under test.  The
+    /// case is counted and skipped; only when such cases exceed 2 % of the run (and 5 cases) is the
+    /// run as a whole inconclusive.
+    pub fn skipped_environment(&mut self, why: impl Into<String>) {
+        let why = why.into();
+        self.count("cases_skipped_for_environment_reasons", 1);
+        if self.env_skips.len() < 5 {
+            self.env_skips.push(why);
+        }
+    }
+
     pub fn merge(&mut self, o: Obs) {
         self.evaluations += o.evaluations;
         self.trivial += o.trivial;
@@ -150,6 +163,11 @@ impl Obs {
         }
         self.notes.extend(o.notes);
         self.inconclusive.extend(o.inconclusive);
+        for w in o.env_skips {
+            if self.env_skips.len() < 5 {
+                self.env_skips.push(w);
+            }
+        }
     }
 }
 
@@ -429,6 +447,12 @@ impl Ctx {
             return 1;
         }
 
+        let env_skipped = self.obs.counters.get("cases_skipped_for_environment_reasons").copied().unwrap_or(0);
+        if env_skipped > 5 && env_skipped * 50 > self.obs.evaluations {
+            self.obs.inconclusive.push(format!("{} of {} cases could not be run for environment reasons, e.g. {:?}", env_skipped, self.obs.evaluations, self.obs.env_skips.first()));
+        } else if env_skipped > 0 {
+            println!("observed: {} case(s) skipped for environment reasons (not a verdict), e.g. {:?}", env_skipped, self.obs.env_skips.first());
+        }
         if !self.obs.inconclusive.is_empty() {
             for w in &self.obs.inconclusive {
                 println!("INCONCLUSIVE: property={} {}", self.prop, w);
@@ -565,9 +589,14 @@ pub fn report_stuck_and_exit(prop: &str, tier: Tier, seed: u64, op: &str, family
         Some((o, b)) => (o, b.parse::<u64>().ok()),
         None => (op, None),
     };
-    let signature = match mem_bytes {
-        Some(_) => format!("{} holds more than {} GiB above its baseline (memory not bounded by the input)", op, crate::mon::HARD_CAP_BYTES >> 30),
-        None => format!("{} does not terminate (CPU-time budget of {} s per call exhausted)", op, budget_s),
+    let (op, blocked_s) = match op.split_once("|BLOCKED|") {
+        Some((o, b)) => (o, b.parse::<u64>().ok()),
+        None => (op, None),
+    };
+    let signature = match (mem_bytes, blocked_s) {
+        (Some(_), _) => format!("{} holds more than {} GiB above its baseline (memory not bounded by the input)", op, crate::mon::HARD_CAP_BYTES >> 30),
+        (None, Some(b)) => format!("{} does not terminate (blocked: no CPU time consumed for {} s inside a call that performs no I/O)", op, b),
+        (None, None) => format!("{} does not terminate (CPU-time budget of {} s per call exhausted)", op, budget_s),
     };
     let known = load_known(prop);
     if let Some(k) = known.iter().find(|k| k.signature == signature) {
@@ -581,6 +610,7 @@ pub fn report_stuck_and_exit(prop: &str, tier: Tier, seed: u64, op: &str, family
     let body = json!({"property": prop, "tier": tier.name(), "seed": seed, "signature": signature,
         "detail": match mem_bytes {
             Some(b) => format!("{} requested {} bytes above its baseline while decoding a {}-byte {} input; the thread was parked before the operating system had to intervene", op, b, input.len(), family),
+            None if blocked_s.is_some() => format!("{} has been inside one call for {} s of wall time while its thread consumed less than 1 s of CPU time ({}-byte {} input): it is blocked, not slow", op, blocked_s.unwrap_or(0), input.len(), family),
             None => format!("{} consumed {} s of CPU time on a {}-byte {} input without returning", op, cpu_s, input.len(), family),
         },
         "case": {"op": op, "family": family, "input_len": input.len(), "input_hex": hex(input)}});
@@ -594,6 +624,7 @@ pub fn report_stuck_and_exit(prop: &str, tier: Tier, seed: u64, op: &str, family
     let _ = std::fs::write(ev_dir.join(format!("{}.json", prop)), serde_json::to_string_pretty(&evidence).unwrap_or_default());
     match mem_bytes {
         Some(b) => println!("violation-detail: [{}] {} bytes requested on a {}-byte {} input", signature, b, input.len(), family),
+        None if blocked_s.is_some() => println!("violation-detail: [{}] {}-byte {} input", signature, input.len(), family),
         None if family.is_empty() => println!("violation-detail: [{}] {} s of CPU in one call of the seed-{} workload (the replay file re-runs it)", signature, cpu_s, seed),
         None => println!("violation-detail: [{}] {} s of CPU on a {}-byte {} input", signature, cpu_s, input.len(), family),
     }
